@@ -114,6 +114,22 @@ def refresh_source(rng, pool):
     it['regions'], it['code'] = regions, code
 
 
+def failing_build(rng, root):
+    """A build that fails inside require() processing (a package in a sub-directory requires a missing module)."""
+    from pico8 import tool
+    d = os.path.join(root, 'proj')
+    os.makedirs(os.path.join(d, 'lib'), exist_ok=True)
+    with open(os.path.join(d, 'main.lua'), 'wb') as fh:
+        fh.write(b'require("lib/a")\n')
+    with open(os.path.join(d, 'lib', 'a.lua'), 'wb') as fh:
+        fh.write(b'require("is_missing")\n')
+    try:
+        tool.main(['-q', 'build', os.path.join(d, 'o.p8'), '--lua', os.path.join(d, 'main.lua')])
+    except BaseException:
+        pass
+    shutil.rmtree(d, ignore_errors=True)
+
+
 def run_build(ctx, rng, pool, root, assign, out_state, out_fmt, lua_from_file):
     from pico8 import tool
     from pico8.game import file as p8file
@@ -173,11 +189,29 @@ def run_build(ctx, rng, pool, root, assign, out_state, out_fmt, lua_from_file):
         ctx.feature('%s:%s' % (sec, desc[sec]))
     ctx.feature('out_state:' + (out_state if exists else 'absent'))
     ctx.feature('out_fmt:' + out_fmt)
+    relative = rng.random() < 0.3
+    run_argv = argv
+    old_cwd = os.getcwd()
+    if relative:
+        # the same invocation with paths relative to the working directory, sometimes right after a build that failed half-way
+        os.chdir(root)
+        run_argv = [os.path.relpath(a, root) if (os.sep in a and a.startswith(root)) else a for a in argv]
+        ctx.feature('relative_paths')
+        if rng.random() < 0.5:
+            failing_build(rng, root)
+            ctx.feature('failed_build_before')
     try:
-        rcode = tool.main(argv)
-    except BaseException as e:
-        ctx.violation('build raised %r for %s' % (e, case), case)
-        return
+        try:
+            rcode = tool.main(run_argv)
+        except BaseException as e:
+            ctx.violation('build raised %r for %s' % (e, case), case)
+            return
+        if not rcode and not os.path.exists(out):
+            ctx.violation('build returned 0 but OUT does not exist where the invocation named it (cwd %s)' % (
+                'changed' if os.getcwd() != (root if relative else old_cwd) else 'unchanged'), case)
+            return
+    finally:
+        os.chdir(old_cwd)
     ctx.monitor('builds_run')
     if rcode:
         ctx.violation('build returned %r for a usable invocation %s' % (rcode, case), case)
@@ -421,6 +455,8 @@ def gates(m, tier):
             missed.append('error class %s: %d' % (k, f.get('error:' + k, 0)))
     if tier == 'thorough' and f.get('matrix_assignments', 0) != 4096:
         missed.append('matrix assignments run: %d of 4096' % f.get('matrix_assignments', 0))
+    if f.get('relative_paths', 0) < 20 or f.get('failed_build_before', 0) < 5:
+        missed.append('relative-path builds %d, after a failed build %d' % (f.get('relative_paths', 0), f.get('failed_build_before', 0)))
     if mon.get('sections_compared', 0) < 600:
         missed.append('sections compared: %d' % mon.get('sections_compared', 0))
     return missed
